@@ -117,4 +117,20 @@ LEMMAS = [
                                   "equal": "implies(rsum(a, d, lo, h) == rsum(a2, d2, lo, h), forall(lambda q: a[q] + d == a2[q] + d2, lo, h))"},
                        variant="hi - h")},
     ),
+    dict(
+        name="ssum_split",          # the sum over [lo, hi) is the sum over [lo, mid) plus the sum over [mid, hi)
+        params={"a": "arr", "d": "int", "lo": "int", "mid": "int", "hi": "int"},
+        requires={"order": "lo <= mid and mid <= hi"},
+        ensures={"split": "rsum(a, d, lo, hi) == rsum(a, d, lo, mid) + rsum(a, d, mid, hi)"},
+        proof="h = mid\nwhile h < hi:\n    h += 1",
+        loops={1: dict(invariant={"range": "mid <= h <= hi", "split": "rsum(a, d, lo, h) == rsum(a, d, lo, mid) + rsum(a, d, mid, h)"}, variant="hi - h")},
+    ),
+    dict(
+        name="ssum_ext",            # ranges of equal length with equal entries have equal sums (different arrays / offsets allowed)
+        params={"a": "arr", "d": "int", "lo": "int", "a2": "arr", "d2": "int", "lo2": "int", "n": "int"},
+        requires={"n": "n >= 0", "agree": "forall(lambda q: a[q] + d == a2[q - lo + lo2] + d2, lo, lo + n)"},
+        ensures={"equal": "rsum(a, d, lo, lo + n) == rsum(a2, d2, lo2, lo2 + n)"},
+        proof="h = 0\nwhile h < n:\n    h += 1",
+        loops={1: dict(invariant={"range": "0 <= h <= n", "same": "rsum(a, d, lo, lo + h) == rsum(a2, d2, lo2, lo2 + h)"}, variant="n - h")},
+    ),
 ]
